@@ -102,19 +102,23 @@ theorem C03_default (g : Nat) : defaultConc g = max g 4 := by
   unfold defaultConc; split <;> omega
 
 /-- **C03 "capacity not lost".** If a job is ready, fewer than `N` bodies are running, the context
-    is live, the front ready job is valid, and (fail-fast) nothing has failed so far, then the
+    of the front ready job is live, that job is valid, and (fail-fast) nothing has failed so far
+    (`NothingFailed`: every ended body ended ok, no job was skipped for its context, and the jobs
+    workers have received but not decided on have live contexts), then the
     scheduler on its own — by loop and worker steps only: no running body has to finish, no caller
     action, no tick — gets one more body running.  In ContinueOnError mode this holds after any
-    number of failed or Goexit-ed jobs (the worker slot is restored by respawn).  The fail-fast
-    premise is needed: with a failing result in flight the loop is legitimately shutting down
-    (illustrated by a `decide`d example in Sched/WorkCons.lean). -/
+    number of failed, Goexit-ed or context-skipped jobs (the worker slot is restored by respawn),
+    whatever the state of the other jobs' contexts.  The fail-fast
+    premise is needed: with a failing result in flight — also the `ctxErr` of a job whose own
+    context is cancelled — the loop is legitimately shutting down
+    (illustrated by `decide`d examples in Sched/WorkCons.lean). -/
 theorem C03_work_conserving (c : Cfg) (hw : c.wiring = Wiring.std) (hwf : WfCfg c) (acts : List Act) (s : State)
     (hr : run c (init c) acts = some s)
     (hsel : s.loop.phase = .select) (hready : s.loop.ready ≠ [])
     (hfree : (s.ws.filter W.isRunning).length < c.N)
-    (hlive : s.cancelled = false)
+    (hlive : ∀ j, s.loop.ready.head? = some j → s.cancelledCtx (c.ctxOfJob j) = false)
     (hvalid : ∀ j, s.loop.ready.head? = some j → (Loop.job s.loop j).invalid = false)
-    (hnofail : c.coe = true ∨ ∀ j o, Ev.ended j o ∈ s.log → o = .ok) :
+    (hnofail : c.coe = true ∨ NothingFailed c s) :
     ∃ (more : List Act) (s' : State), (∀ a ∈ more, a.isInternal = true) ∧ run c s more = some s' ∧
       (s.ws.filter W.isRunning).length < (s'.ws.filter W.isRunning).length := by
   have e : W.isRunning = W.isRun := by funext x; cases x <;> rfl
@@ -123,13 +127,13 @@ theorem C03_work_conserving (c : Cfg) (hw : c.wiring = Wiring.std) (hwf : WfCfg 
 
 /-! ### C09 — cancellation -/
 
-/-- **C09 "returns at once".** From every reachable state in which the context is cancelled and
-    `Wait` has not returned, the caller can complete every remaining `Enqueue` and return from
+/-- **C09 "returns at once".** From every reachable state in which the context `Wait` is called
+    with (`c.waitCtx`) is cancelled and `Wait` has not returned, the caller can complete every remaining `Enqueue` and return from
     `Wait` by steps none of which is the end of a running job body: it never has to wait for a
     running task (pending Enqueues are absorbed by the loop or by its drain; `Wait` leaves through
     its `ctx.Done()` arm). -/
 theorem C09_prompt (c : Cfg) (hw : c.wiring = Wiring.std) (hwf : WfCfg c) (acts : List Act) (s : State)
-    (hr : run c (init c) acts = some s) (hc : s.cancelled = true) (hnr : s.caller.ret = none) :
+    (hr : run c (init c) acts = some s) (hc : s.cancelledCtx c.waitCtx = true) (hnr : s.caller.ret = none) :
     ∃ (more : List Act) (s' : State), (∀ a ∈ more, a.isWorkerEnd = false) ∧ run c s more = some s' ∧
       s'.caller.ret.isSome = true ∧ (s.caller.closed = false → s'.caller.sent = c.deps.length) :=
   prompt_return c hw hwf acts s hr hc hnr
@@ -139,41 +143,92 @@ theorem C09_prompt (c : Cfg) (hw : c.wiring = Wiring.std) (hwf : WfCfg c) (acts 
 example :
     let c : Cfg := { N := 1, coe := false, emit := false, deps := [[]],
                      wiring := { waitSelectsCtx := false } }
-    ∃ s, run c (init c) [.callerSend, .loopEnq, .loopDispatch 0, .workerDecide 0, .callerClose, .loopEnqClosed, .cancel] = some s
+    ∃ s, run c (init c) [.callerSend, .loopEnq, .loopDispatch 0, .workerDecide 0, .callerClose, .loopEnqClosed, .cancel 0] = some s
       ∧ step c s .callerRetCtx = none ∧ step c s .callerRetFin = none ∧ s.ws = [.running 0] := by
   decide
 
-/-- No job is started after the context was cancelled, in either error mode:
-    in every log, every `started` event precedes every `cancelled` event. -/
+/-- No job is started after its own context (the one it was enqueued with) was cancelled, in
+    either error mode: in every log, every `started j` event precedes the `cancelled` event of
+    `j`'s context.  (Cancelling another job's context does not stop `j`: see the two-context
+    examples below.) -/
 theorem C09_no_start_after_cancel (c : Cfg) (hw : c.wiring = Wiring.std) (acts : List Act) (s : State)
     (hr : run c (init c) acts = some s) (i k j : Nat)
-    (hi : s.log[i]? = some Ev.cancelled) (hk : s.log[k]? = some (Ev.started j)) : k < i := by
-  have inv : CancelInv s :=
-    run_induct (c := c) CancelInv (fun s a s' hp h => cancelInv_step hw hp h) acts _ _ (cancelInv_init c) hr
-  exact inv.clean i k _ hi hk (by simp [Bad])
+    (hi : s.log[i]? = some (Ev.cancelled (c.ctxOfJob j))) (hk : s.log[k]? = some (Ev.started j)) : k < i := by
+  have inv : CancelInv c s :=
+    run_induct (c := c) (CancelInv c) (fun s a s' hp h => cancelInv_step hw hp h) acts _ _ (cancelInv_init c) hr
+  exact inv.clean _ i k _ hi hk (by simp [Bad])
 
-/-- `Wait` never returns nil at an instant where the context is already cancelled. -/
+/-- `Wait` never returns nil at an instant where its own context is already cancelled. -/
 theorem C09_nil_implies_not_cancelled (c : Cfg) (hw : c.wiring = Wiring.std) (acts : List Act) (s : State)
     (hr : run c (init c) acts = some s) (i k : Nat)
-    (hi : s.log[i]? = some Ev.cancelled) (hk : s.log[k]? = some (Ev.waitReturned [])) : k < i := by
-  have inv : CancelInv s :=
-    run_induct (c := c) CancelInv (fun s a s' hp h => cancelInv_step hw hp h) acts _ _ (cancelInv_init c) hr
-  exact inv.clean i k _ hi hk (by simp [Bad])
+    (hi : s.log[i]? = some (Ev.cancelled c.waitCtx)) (hk : s.log[k]? = some (Ev.waitReturned [])) : k < i := by
+  have inv : CancelInv c s :=
+    run_induct (c := c) (CancelInv c) (fun s a s' hp h => cancelInv_step hw hp h) acts _ _ (cancelInv_init c) hr
+  exact inv.clean _ i k _ hi hk (by simp [Bad])
 
 /-- Non-vacuity: a run in which a job starts, the context is cancelled, and a second job is skipped. -/
 example :
     let c : Cfg := { N := 1, coe := true, emit := false, deps := [[], []] }
     ∃ s, run c (init c) [.callerSend, .loopEnq, .callerSend, .loopEnq, .loopDispatch 0, .workerDecide 0,
-        .cancel, .workerEnd 0 .ok false, .workerPost 0, .loopResult, .loopDispatch 0, .workerDecide 0] = some s
-      ∧ Ev.started 0 ∈ s.log ∧ Ev.cancelled ∈ s.log ∧ Ev.skipped 1 .ctx ∈ s.log := by
+        .cancel 0, .workerEnd 0 .ok false, .workerPost 0, .loopResult, .loopDispatch 0, .workerDecide 0] = some s
+      ∧ Ev.started 0 ∈ s.log ∧ Ev.cancelled 0 ∈ s.log ∧ Ev.skipped 1 .ctx ∈ s.log := by
   decide
 
 /-- Without the worker's context check a job does start after cancellation (the flag matters). -/
 example :
     let c : Cfg := { N := 1, coe := false, emit := false, deps := [[]],
                      wiring := { workerChecksCtx := false } }
-    ∃ s, run c (init c) [.cancel, .callerSend, .loopEnq, .loopDispatch 0, .workerDecide 0] = some s
-      ∧ s.log.getLast? = some (Ev.started 0) ∧ Ev.cancelled ∈ s.log := by
+    ∃ s, run c (init c) [.cancel 0, .callerSend, .loopEnq, .loopDispatch 0, .workerDecide 0] = some s
+      ∧ s.log.getLast? = some (Ev.started 0) ∧ Ev.cancelled 0 ∈ s.log := by
+  decide
+
+/-- Two contexts, ContinueOnError (non-vacuity of the per-job-context model): job 0 is enqueued
+    with context 1, job 1 and `Wait` with context 0; context 1 is cancelled before job 0 is
+    dispatched.  Job 0 is skipped with `ctxErr` (never started); the independent job 1, whose
+    context is live, still runs — it starts after the `cancelled 1` event — and `Wait`, whose
+    context is live too, returns `[ctxErr]` through its finished arm. -/
+example :
+    let c : Cfg := { N := 1, coe := true, emit := false, deps := [[], []], ctxOf := [1, 0], waitCtx := 0 }
+    ∃ s, run c (init c)
+      [.cancel 1, .callerSend, .loopEnq, .callerSend, .loopEnq, .callerClose, .loopEnqClosed,
+       .loopDispatch 0, .workerDecide 0, .workerPost 0, .loopResult,
+       .loopDispatch 0, .workerDecide 0, .workerEnd 0 .ok false, .workerPost 0, .loopResult,
+       .loopClose, .callerRetFin] = some s
+      ∧ s.log.head? = some (Ev.cancelled 1)
+      ∧ Ev.skipped 0 .ctx ∈ s.log ∧ Ev.started 0 ∉ s.log
+      ∧ Ev.started 1 ∈ s.log ∧ Ev.ended 1 .ok ∈ s.log
+      ∧ s.cancelledCtx 1 = true ∧ s.cancelledCtx 0 = false
+      ∧ s.loop.err = [.ctxErr] ∧ s.caller.ret = some [.ctxErr]
+      ∧ step c s .callerRetCtx = none ∧ wfCfgB c = true := by
+  decide
+
+/-- The same in fail-fast mode: the loop leaves its `for` at the first `ctxErr` (job 0's, whose own
+    context is cancelled); job 1 — live context, no dependency — is never dispatched, and `Wait`
+    (live context) returns `[ctxErr]`. -/
+example :
+    let c : Cfg := { N := 1, coe := false, emit := false, deps := [[], []], ctxOf := [1, 0], waitCtx := 0 }
+    ∃ s, run c (init c)
+      [.cancel 1, .callerSend, .loopEnq, .callerSend, .loopEnq, .callerClose, .loopEnqClosed,
+       .loopDispatch 0, .workerDecide 0, .workerPost 0, .loopResult] = some s
+      ∧ s.loop.phase = .draining ∧ s.loop.err = [.ctxErr]
+      ∧ Ev.skipped 0 .ctx ∈ s.log ∧ s.loop.ready = [1]
+      ∧ step c s (.loopDispatch 0) = none
+      ∧ ∃ s', run c s [.loopClose, .callerRetFin, .workerExit 0] = some s'
+          ∧ s'.caller.ret = some [.ctxErr] ∧ Ev.dispatched 1 ∉ s'.log ∧ Ev.started 1 ∉ s'.log
+          ∧ s'.cancelledCtx 0 = false ∧ Final s' = true := by
+  decide
+
+/-- `Wait`'s own context: with context 1 for `Wait` and context 0 for the job, cancelling
+    context 1 lets `Wait` return `[ctxErr]` at once while the job (live context) is running; and
+    cancelling only the job's context does not enable `Wait`'s context arm. -/
+example :
+    let c : Cfg := { N := 1, coe := false, emit := false, deps := [[]], ctxOf := [0], waitCtx := 1 }
+    (∃ s, run c (init c) [.callerSend, .loopEnq, .loopDispatch 0, .workerDecide 0, .callerClose,
+                          .cancel 1, .callerRetCtx] = some s
+      ∧ s.caller.ret = some [.ctxErr] ∧ s.ws = [.running 0] ∧ s.cancelledCtx 0 = false)
+    ∧ (∃ s, run c (init c) [.callerSend, .loopEnq, .loopDispatch 0, .workerDecide 0, .callerClose,
+                            .cancel 0] = some s
+      ∧ step c s .callerRetCtx = none ∧ s.cancelledCtx 0 = true) := by
   decide
 
 
@@ -364,10 +419,12 @@ theorem C07_nil_complete (c : Cfg) (hw : c.wiring = Wiring.std) (hwf : WfCfg c) 
 
 /-- **C07 error ⇒ real.** Fail-fast: a non-nil error returned by `Wait` is exactly one entry, and
     it is the error value of a job that actually failed, the exit error of a job that called
-    Goexit, or the context's error after a cancellation — never anything else (no sentinel). -/
+    Goexit, or a context's error after a cancellation of that context (`RealEntry`: `Wait`'s own
+    context, or the own context of a job that was skipped for it) — never anything else (no
+    sentinel). -/
 theorem C07_error_real (c : Cfg) (hw : c.wiring = Wiring.std) (hwf : WfCfg c) (hc : c.coe = false)
     (acts : List Act) (s : State) (hr : run c (init c) acts = some s) (r : List Res)
-    (hret : Ev.waitReturned r ∈ s.log) : r = [] ∨ ∃ x, r = [x] ∧ RealEntry x s.log := by
+    (hret : Ev.waitReturned r ∈ s.log) : r = [] ∨ ∃ x, r = [x] ∧ RealEntry c x s.log := by
   obtain ⟨_, h8⟩ := full_run hw hwf acts s hr
   have hlen := h8.retFfLen hc r hret
   match r, hret, hlen with
@@ -398,11 +455,11 @@ theorem C07_no_downstream (c : Cfg) (hw : c.wiring = Wiring.std) (hwf : WfCfg c)
 /-- **C08 error entries.** ContinueOnError: the accumulated error is, in order, exactly one entry
     per result the loop saw that was a failure other than the internal sentinel; the sentinel never
     appears; every entry is a real failure (a job's own error value, a Goexit, or the context's
-    error of a job skipped by cancellation). -/
+    error of a job skipped because its own context was cancelled). -/
 theorem C08_error_entries (c : Cfg) (hw : c.wiring = Wiring.std) (hwf : WfCfg c) (hc : c.coe = true)
     (acts : List Act) (s : State) (hr : run c (init c) acts = some s) :
     s.loop.err = s.log.filterMap Ev.errEntry ∧ Res.invalid ∉ s.loop.err ∧ Res.ok ∉ s.loop.err ∧
-    ∀ x ∈ s.loop.err, RealEntry x s.log := by
+    ∀ x ∈ s.loop.err, RealEntry c x s.log := by
   obtain ⟨R, _⟩ := full_run hw hwf acts s hr
   have he := R.i7.errCoe hc
   refine ⟨he, ?_, ?_, ?_⟩
@@ -421,10 +478,26 @@ theorem C08_one_result_per_job (c : Cfg) (hw : c.wiring = Wiring.std) (hwf : WfC
   obtain ⟨R, _⟩ := full_run hw hwf acts s hr
   exact ⟨R.i6.seenOnce j, R.i6.decOnce j, R.i6.endedOnce j, fun r hm => (R.i6.seenProd j r hm).1⟩
 
+/-- **C08/C09 context skip ⇒ own context cancelled** (new with per-job contexts; both modes).  A job
+    is skipped with the context's error only if the context *it was enqueued with* has been
+    cancelled — never because some other job's context, or `Wait`'s, was. -/
+theorem C08_ctx_skip_own_context (c : Cfg) (hw : c.wiring = Wiring.std) (hwf : WfCfg c)
+    (acts : List Act) (s : State) (hr : run c (init c) acts = some s) (j : Nat)
+    (hsk : Ev.skipped j .ctx ∈ s.log) :
+    Ev.cancelled (c.ctxOfJob j) ∈ s.log ∧ s.cancelledCtx (c.ctxOfJob j) = true ∧ Ev.started j ∉ s.log := by
+  obtain ⟨R, _⟩ := full_run hw hwf acts s hr
+  have hcan := R.i6.skipCtx j hsk
+  have inv : CancelInv c s :=
+    run_induct (c := c) (CancelInv c) (fun s a s' hp h => cancelInv_step hw hp h) acts _ _ (cancelInv_init c) hr
+  refine ⟨hcan, inv.flag _ hcan, ?_⟩
+  intro hst
+  have := eq_of_countP_le_one (R.i6.decOnce j) hst hsk (by simp [Ev.decides]) (by simp [Ev.decides])
+  simp at this
+
 /-- **C08 what `Wait` returns** (both modes): every entry of every error `Wait` ever returned is real. -/
 theorem C08_wait_entries_real (c : Cfg) (hw : c.wiring = Wiring.std) (hwf : WfCfg c)
     (acts : List Act) (s : State) (hr : run c (init c) acts = some s) (r : List Res)
-    (hret : Ev.waitReturned r ∈ s.log) : ∀ x ∈ r, RealEntry x s.log :=
+    (hret : Ev.waitReturned r ∈ s.log) : ∀ x ∈ r, RealEntry c x s.log :=
   (full_run hw hwf acts s hr).2.retReal r hret
 
 /-- **C08 everything is decided.** ContinueOnError: when the loop has left its `for`, every
@@ -444,13 +517,14 @@ theorem C08_all_decided_at_exit (c : Cfg) (hw : c.wiring = Wiring.std) (hwf : Wf
       simpa [Loop.undoneB, Loop.job] using this
     exact R.i6.doneSeen j hjdone
 
-/-- **C08 everything runnable ran.** ContinueOnError, no cancellation: once the loop has left, a
-    submitted job all of whose dependencies ended without error was started (exactly once, by
-    `C01_at_most_once`) — failures elsewhere do not stop it. -/
+/-- **C08 everything runnable ran.** ContinueOnError, the job's own context never cancelled: once
+    the loop has left, a submitted job all of whose dependencies ended without error was started
+    (exactly once, by `C01_at_most_once`) — failures elsewhere, and cancellations of other jobs'
+    contexts or of `Wait`'s, do not stop it. -/
 theorem C08_runnable_ran (c : Cfg) (hw : c.wiring = Wiring.std) (hwf : WfCfg c) (hc : c.coe = true)
     (acts : List Act) (s : State) (hr : run c (init c) acts = some s) (hp : s.loop.phase ≠ .select)
     (j : Nat) (hj : j < s.caller.sent) (hdeps : ∀ d ∈ c.depsOf j, Ev.ended d .ok ∈ s.log)
-    (hnc : Ev.cancelled ∉ s.log) : Ev.started j ∈ s.log := by
+    (hnc : Ev.cancelled (c.ctxOfJob j) ∉ s.log) : Ev.started j ∈ s.log := by
   obtain ⟨R, h8⟩ := full_run hw hwf acts s hr
   obtain ⟨r, hseen⟩ := C08_all_decided_at_exit c hw hwf hc acts s hr hp j hj
   rcases (R.i6.seenProd j r hseen).1 with ⟨o, _, he⟩ | ⟨_, hsk⟩ | ⟨_, hsk⟩
@@ -466,7 +540,10 @@ theorem C08_runnable_ran (c : Cfg) (hw : c.wiring = Wiring.std) (hwf : WfCfg c) 
     rcases hprod with ⟨o, ho, he⟩ | ⟨_, hsk'⟩ | ⟨_, hsk'⟩
     · have := eq_of_countP_le_one (R.i6.endedOnce d) he hok (by simp [Ev.isEndedOf]) (by simp [Ev.isEndedOf])
       simp at this; subst this; subst ho; simp [outcomeRes, Res.isErr] at hie
-    · exact absurd (R.i6.skipCtx d hsk') hnc
+    · -- the dependency was skipped for its context — but it ended ok, so it was started
+      have hst := R.i6.endedStarted d _ hok
+      have := eq_of_countP_le_one (R.i6.decOnce d) hst hsk' (by simp [Ev.decides]) (by simp [Ev.decides])
+      simp at this
     · have hst := R.i6.endedStarted d _ hok
       have := eq_of_countP_le_one (R.i6.decOnce d) hst hsk' (by simp [Ev.decides]) (by simp [Ev.decides])
       simp at this
